@@ -172,6 +172,12 @@ def _core(S, dim):
     finally:
         P.VC.loop_index, P.VC.loop_step, P.VC.loop_exit_for = orig_index, orig_step, orig_exit
     S.functions['FunctionSpace.DofManager.__init__'] = dict(file=info['file'], sha256=P.fn_sha(info['file'], '__init__'), frontend='P')
+    # the public methods are the real ones, executed on the constructed object in _core_post
+    for meth in ('get_unknown_size', 'get_bc_size', 'create_field', 'get_bc_values', 'get_unknown_values', 'slice_unknowns_with_dof_indices'):
+        try:
+            S.functions['FunctionSpace.DofManager.' + meth] = dict(file=info['file'], sha256=P.fn_sha(info['file'], meth), frontend='P')
+        except Exception:
+            pass
     done = False
     for pi, (ctx, dm, status) in enumerate(paths):
         for (name, hyps, goal, hints) in ctx.obls:
